@@ -33,7 +33,7 @@ def run_configs(pid, tier, level, body, explanation, rule_text, not_decided=(), 
 
             tb = traceback.format_exc().strip().splitlines()
             ck.fail("TERM", f"{cfg}:engine", f"analysis could not process the program ({type(ex).__name__}: {ex}); {tb[-3].strip() if len(tb) > 2 else ''}", kind="unanalysable")
-        sigs.append([(o[0], o[1], o[2]) for o in ck.obligations[before:]])
+        sigs.append([(o[0], o[1], o[2]) for o in ck.obligations[before:] if o[0] != "WITNESS"])
     if len(sigs) > 1 and any(s != sigs[0] for s in sigs[1:]):
         diffs = []
         for cfg_, s in zip(ck.configs[1:], sigs[1:]):
